@@ -1,2 +1,158 @@
+// C16: Boudot range proof -- in-range values prove, nothing else is accepted
+use super::*;
+use crate::flat::*;
+use crate::ops::*;
 use crate::H;
-pub fn c16(_h: &mut H) {}
+use rug::Integer;
+use serde_json::{json, Value};
+
+pub fn rverify(h: &mut H, rp: &Value, g: &Integer, hh: &Integer, n: &Integer, a: &Integer, b: &Integer) -> Out {
+    call(h, "cl.rverify", vec![rp.clone(), iv(g), iv(hh), iv(n), iv(a), iv(b)], vec![]).0
+}
+
+pub fn rprove(h: &mut H, x: &Integer, c: &Value, g: &Integer, hh: &Integer, n: &Integer, a: &Integer, b: &Integer, inject: Vec<(String, Integer)>) -> (Out, Vec<(String, Integer)>) {
+    call(h, "cl.rprove", vec![iv(x), c.clone(), iv(g), iv(hh), iv(n), iv(a), iv(b)], inject)
+}
+
+/// commitment g^x h^r mod n with an ln-bit r, as commit_with_commitment_pk does (one base)
+pub fn commit1(h: &mut H, cpk1: &Value, x: &Integer) -> Value {
+    let (c, _) = call(h, "cl.commitcpk", vec![cpk1.clone(), ivs(&[x.clone()]), Value::Null], vec![]);
+    c.ok().expect("commit").clone()
+}
+
+fn divm(a: &Integer, b: &Integer, n: &Integer) -> Integer {
+    let bi = b.clone().invert(n).expect("unit");
+    Integer::from(a * bi) % n
+}
+
+pub fn c16(h: &mut H) {
+    let k = keygen(h, 1);
+    let (ck, _) = cpk(h, Some(&k.n_mod), 1);
+    let n = k.n_mod.clone();
+    let g = int_of(&ck["g_bases"][0]);
+    let hh = field(&ck, "h");
+    let (ck_other, _) = cpk(h, Some(&k.n_mod), 1);
+    let g2 = int_of(&ck_other["g_bases"][0]);
+    let hh2 = field(&ck_other, "h");
+    let mut widths: Vec<Integer> = vec![Integer::from(1), Integer::from(2), Integer::from(3), pow2(8), pow2(64), pow2(256) - 1];
+    if h.thorough {
+        widths.extend(vec![pow2(16) + 1, pow2(128), pow2(257), pow2(512)]);
+    }
+    let lows: Vec<Integer> = vec![Integer::from(0), Integer::from(1), pow2(257) + 1, Integer::from(12345)];
+    let mut leaf_budget: i64 = if h.thorough { 300 } else { 30 };
+    for (wi, w) in widths.iter().enumerate() {
+        let a = lows[wi % lows.len()].clone();
+        let b = Integer::from(&a + w);
+        let mid = Integer::from(&a + Integer::from(w / 2u32));
+        let mut xs: Vec<Integer> = vec![a.clone(), Integer::from(&a + 1u32), mid, Integer::from(&b - 1u32), b.clone()];
+        let r = Integer::from(h.rng.next()) % (w.clone() + 1u32);
+        xs.push(Integer::from(&a + r));
+        xs.sort();
+        xs.dedup();
+        let mut honest: Option<(Value, Value, Integer)> = None;
+        for x in &xs {
+            h.stat(&format!("C16.width_bits={}", w.significant_bits()));
+            let c = commit1(h, &ck, x);
+            let (rp, _) = rprove(h, x, &c, &g, &hh, &n, &a, &b, vec![]);
+            let pid = h.last();
+            let rp = match rp.ok() {
+                Some(v) => v.clone(),
+                None => {
+                    h.expect(false, "C16.prove", "prove panicked for a value inside [min, max]", &[pid]);
+                    continue;
+                }
+            };
+            let v = rverify(h, &rp, &g, &hh, &n, &a, &b);
+            h.expect(v.is_true(), "C16.verify", "honest range proof does not verify", &[pid, h.last()]);
+            h.expect(rp["E"] == c["value"], "C16.E", "range proof is not about the given commitment", &[pid]);
+            if honest.is_none() || *x == xs[xs.len() / 2] {
+                honest = Some((rp, c, x.clone()));
+            }
+        }
+        // outside values: the honest prover produces nothing that verifies
+        for x in [Integer::from(&a - 1u32), Integer::from(&b + 1u32), Integer::from(&a - pow2(40)), Integer::from(&b + pow2(300))] {
+            let c = commit1(h, &ck, &x);
+            let (rp, _) = rprove(h, &x, &c, &g, &hh, &n, &a, &b, vec![]);
+            let pid = h.last();
+            h.stat("C16.outside");
+            if let Some(rp) = rp.ok().cloned() {
+                let v = rverify(h, &rp, &g, &hh, &n, &a, &b);
+                h.expect(!v.is_true(), "C16.outside", "a range proof for a value outside [min, max] verifies", &[pid, h.last()]);
+            }
+        }
+        let (rp, c, x) = match honest { Some(t) => t, None => continue };
+        let reject = |h: &mut H, class: &str, rp: &Value, g_: &Integer, h_: &Integer, n_: &Integer, a_: &Integer, b_: &Integer| {
+            h.stat(&format!("C16.neg.{}", class));
+            let v = rverify(h, rp, g_, h_, n_, a_, b_);
+            h.expect(!v.is_true(), &format!("C16.{}", class), "range proof accepted for something it was not made for", &[h.last()]);
+        };
+        // other bounds, bases, modulus
+        reject(h, "other_min", &rp, &g, &hh, &n, &Integer::from(&a + 1u32), &Integer::from(&b + 1u32));
+        reject(h, "other_max", &rp, &g, &hh, &n, &a, &Integer::from(&b + 1u32));
+        if *w > 1 {
+            reject(h, "narrower", &rp, &g, &hh, &n, &a, &Integer::from(&b - 1u32));
+        }
+        reject(h, "other_g", &rp, &g2, &hh, &n, &a, &b);
+        reject(h, "other_h", &rp, &g, &hh2, &n, &a, &b);
+        reject(h, "bases_swapped", &rp, &hh, &g, &n, &a, &b);
+        reject(h, "other_modulus", &rp, &g, &hh, &Integer::from(&n + 2u32), &a, &b);
+        // transplant the sub-proofs onto another commitment E' (DESIGN F8)
+        let t = 2 * (128 + 40 + 1) + Integer::from(&b - &a).significant_bits();
+        let targets: Vec<(&str, Integer)> = vec![
+            ("a_minus_1", Integer::from(&a - 1u32)),
+            ("b_plus_1", Integer::from(&b + 1u32)),
+            ("a_minus_2k", Integer::from(&a - pow2(50))),
+        ];
+        let mut eprimes: Vec<(String, Integer)> = Vec::new();
+        for (nm, xv) in targets {
+            let c2 = commit1(h, &ck, &xv);
+            eprimes.push((nm.to_string(), field(&c2, "value")));
+        }
+        let rnd = Integer::from(Integer::from(h.rng.next()) * Integer::from(h.rng.next())).pow_mod(&Integer::from(2), &n).unwrap();
+        eprimes.push(("random_element".to_string(), rnd));
+        for (nm, e_new) in eprimes {
+            let mut z = rp.clone();
+            let e_new_prime = powm(&e_new, &pow2(t), &n);
+            // recompute E_a, E_b for the new E' and re-derive E_a_1, E_b_1 from the honest E_a_2, E_b_2
+            let sq = Integer::from(&b - &a).sqrt();
+            let kk = pow2(40 + 128 + t / 2 + 1) * sq;
+            let aa = Integer::from(pow2(t) * &a) - &kk;
+            let bb = Integer::from(pow2(t) * &b) + &kk;
+            let e_a = divm(&e_new_prime, &powm(&g, &aa, &n), &n);
+            let e_b = divm(&powm(&g, &bb, &n), &e_new_prime, &n);
+            let ea2 = field(&rp["proof_of_tolerance"], "E_a_2");
+            let eb2 = field(&rp["proof_of_tolerance"], "E_b_2");
+            z["E"] = iv(&e_new);
+            z["E_prime"] = iv(&e_new_prime);
+            z["proof_of_tolerance"]["E_a_1"] = iv(&divm(&e_a, &ea2, &n));
+            z["proof_of_tolerance"]["E_b_1"] = iv(&divm(&e_b, &eb2, &n));
+            h.stat(&format!("C16.transplant.{}", nm));
+            let v = rverify(h, &z, &g, &hh, &n, &a, &b);
+            h.expect(!v.is_true(), "C16.transplant", &format!("sub-proofs transplanted onto a commitment to {} are accepted", nm), &[h.last()]);
+        }
+        // single-field edits
+        let mut lv = Vec::new();
+        leaves(&rp, String::new(), &mut lv);
+        let picks: Vec<usize> = if h.thorough && wi < 2 { (0..lv.len()).collect() } else { (0..5).map(|_| h.rng.below(lv.len() as u64) as usize).collect() };
+        for li in picks {
+            if leaf_budget <= 0 { break; }
+            leaf_budget -= 1;
+            let (path, old) = lv[li].clone();
+            let edit = li % 3;
+            if edit == 2 && old == 0 { continue; }
+            let mut z = rp.clone();
+            let mut cnt = 0usize;
+            let f: Box<dyn Fn(&Integer) -> Integer> = match edit {
+                0 => Box::new(|x| Integer::from(x + 1u32)),
+                1 => Box::new(|x| Integer::from(x - 1u32)),
+                _ => Box::new(|_| Integer::from(0)),
+            };
+            map_leaf(&mut z, &mut cnt, li, &*f);
+            h.stat("C16.leaf_edit");
+            let v = rverify(h, &z, &g, &hh, &n, &a, &b);
+            h.expect(!v.is_true(), "C16.leaf_edit", &format!("range proof accepted with field {} altered", path), &[h.last()]);
+        }
+        let _ = (c, x);
+    }
+    let _ = json!(0);
+}
